@@ -294,10 +294,100 @@ def trace_word_shape(ctx, g):
            "word(e, i); e := e.i; word(e, j); e := e.j; until e == d; single edges (d, i) / (d, j) otherwise" if not bad else bad)
 
 
+def generator_exactness(ctx, g):
+    """find_generators / fundamental_group / glue on value tables: a facet (d, i) becomes a generator iff SOME ridge (d, i, j), j in 0..=dim(), is still
+    open; generators are numbered len + 1; the recursion starts from [(d, i, None)]; a traced word is recorded iff non-empty, a relator kept iff
+    non-empty, a cone recorded iff the branching number is at least 2; after gluing a mirror facet the far ridge is re-examined iff its own
+    k-facet is a mirror too, after gluing an inner facet iff it is not"""
+    ctx.clauses.append("generators: open ridge for some j in 0..=dim; numbered len + 1; recursion seeded with (d, i, None); words / relators kept iff non-empty; cones iff v >= 2; re-examination polarity in glue (T4)")
+    b = ctx.body("fundamental_group::find_generators")
+    ctx.scan(ctx.facts.with_closures(b.name))
+    bad = None
+    anys = list(b.calls("Iterator::any"))
+    if len(anys) != 1:
+        bad = "%d any(..) tests" % len(anys)
+    else:
+        a = [strip(norm(b.origin(x), g)) for x in anys[0][1]["args"]]
+        r = range_of(b, a[0], g)
+        res = apply_closure(ctx.facts, a[1], [("local", -1, "j")], g)
+        res = strip(res) if res is not None else None
+        okr = r and eval_int(r[0]) == 0 and r[2] and is_call(strip(r[1]), "::dim")
+        oko = res is not None and is_call(res, "is_some") and is_call(strip(res[2][0]), "::opposite")
+        if not okr:
+            bad = "the ridges examined are not all j in 0..=dim(): %s" % (r,)
+        elif not oko:
+            bad = "the test is not bnd.opposite(d, i, j).is_some()"
+        else:
+            oa = [strip(y) for y in strip(res[2][0])[2]]
+            d_t, i_t = oa[1], oa[2]
+            rd, ri = loop_range_of_payload(b, d_t, g), loop_range_of_payload(b, i_t, g)
+            if not (oa[3] == ("local", -1, "j") and rd and ri and eval_int(rd[0]) == 1 and is_call(strip(rd[1]), "::size") and eval_int(ri[0]) == 0 and is_call(strip(ri[1]), "::dim")):
+                bad = "opposite is not asked for (chamber, index, j) in this order"
+            else:
+                lit = None
+                for bi, t in b.calls("glue_recursively"):
+                    lit = vec_literal(b, b.origin(t["args"][1]))
+                lit = [strip(norm(x, g)) for x in lit] if lit else None
+                if not (lit and len(lit) == 1 and lit[0][0] == "agg" and [strip(z) for z in lit[0][2]][:2] == [d_t, i_t] and strip(lit[0][2][2])[1].endswith("Option::None")):
+                    bad = "the recursion is not started from vec![(d, i, None)]"
+                else:
+                    gens = [strip(norm(b.origin(t["args"][1]), g)) for bi, t in b.calls("BTreeMap::<K, V, A>::insert") if strip(norm(b.origin(t["args"][1]), g))[0] != "agg"]
+                    lens = [y for x in gens for y in subterms(x) if isinstance(y, tuple) and y and y[0] == "call" and y[1].endswith("::len")]
+                    v = eval_term_env(unov_deep(fold_std_ops(gens[0])), {lens[0]: 4}) if gens and lens else None
+                    if v != 5:
+                        bad = "a new generator is not numbered gen_to_edge.len() + 1 (for 4 existing generators: %s)" % v
+                    else:
+                        wi = [bi for bi, t in b.calls("BTreeMap::<K, V, A>::insert") if contains(norm(b.origin(t["args"][2]), g), lambda y: is_call(y, "fundamental_group::trace_word"))]
+                        tabs = [reach_table_by_length(b, bi, g) for bi in wi]
+                        if len(wi) != 2 or any(t_ != {0: False, 1: True, 2: True, 5: True} for t_ in tabs):
+                            bad = "a traced word is not recorded (both directions) exactly when it is non-empty: %s" % tabs
+    ctx.ob("T4-generator-exactness", b.name, "generators", "ok" if not bad else "violation", "open ridge for some j in 0..=dim(); numbered len + 1; seeded (d, i, None); words recorded iff non-empty" if not bad else bad)
+    b = ctx.body("fundamental_group::fundamental_group")
+    bad = None
+    ri = [bi for bi, t in b.calls("BTreeSet::<T, A>::insert") if contains(norm(b.origin(t["args"][1]), g), lambda y: is_call(y, "FreeWord::raised_to"))]
+    ci = [(bi, strip(norm(b.origin(t["args"][1]), g))) for bi, t in b.calls("BTreeSet::<T, A>::insert") if strip(norm(b.origin(t["args"][1]), g))[0] == "agg"]
+    if len(ri) != 1 or len(ci) != 1:
+        bad = "not one relator insertion and one cone insertion"
+    else:
+        tab = reach_table_by_length(b, ri[0], g)
+        if tab != {0: False, 1: True, 2: True, 5: True}:
+            bad = "a relator word^v is not kept exactly when non-empty: %s" % tab
+        else:
+            deg = strip(ci[0][1][2][1])
+            table = {}
+            for dv in (1, 2, 3):
+                r = reachable_sites(b, g, {ci[0][0]}, lambda y, dv=dv: dv if y == deg else None)
+                table[dv] = ci[0][0] in r
+            if table != {1: False, 2: True, 3: True}:
+                bad = "a cone (word, v) is recorded for branching numbers %s; it must be recorded exactly for v >= 2" % [k for k, v_ in table.items() if v_]
+    ctx.ob("T4-generator-exactness", b.name, "relators / cones", "ok" if not bad else "violation", "relator kept iff non-empty; cone recorded iff v >= 2" if not bad else bad)
+    B = "fundamental_group::Boundary::<'a, T>::"
+    gb = ctx.body(B + "glue")
+    me, d_, i_ = (("param", k, gb.debug.get(k, "")) for k in (1, 2, 3))
+    di = ("call", "std::option::Option::<T>::unwrap", (("call", "dsets::DSet::op", (("field", me, "ds"), i_, d_)),))
+    bad = None
+    pushes = [bi for bi, t in gb.calls("Vec::<T, A>::push")]
+    seen = {}
+    for pb in pushes:
+        fa = [atom_norm(x, g) for x in gb.facts_at(pb)]
+        mirror = any(x[0] == "rel" and x[1] == "Eq" and {strip(x[2]), strip(x[3])} == {d_, di} for x in fa)
+        inner = any(x[0] == "rel" and x[1] == "Ne" and {strip(x[2]), strip(x[3])} == {d_, di} for x in fa)
+        far = [x for x in fa if x[0] == "rel" and x[1] in ("Eq", "Ne") and any(is_call(strip(z), "DSet::op") and contains(z, lambda y: is_call(y, "::opposite")) for z in (x[2], x[3]))]
+        pol = {x[1] for x in far}
+        if mirror:
+            seen["mirror"] = pol
+        if inner:
+            seen["inner"] = pol
+    if seen != {"mirror": {"Eq"}, "inner": {"Ne"}}:
+        bad = "after gluing a mirror facet the far ridge is not re-examined exactly when its own facet is a mirror (==), after an inner facet exactly when it is not (!=): %s" % seen
+    ctx.ob("T4-generator-exactness", gb.name, "re-examination polarity", "ok" if not bad else "violation", "mirror: op(k, e) == Some(e); inner: op(k, e) != Some(e)" if not bad else bad)
+
+
 def run(ctx):
     g = ctx.facts.getters()
     boundary_bookkeeping(ctx, g)
     trace_word_shape(ctx, g)
+    generator_exactness(ctx, g)
     closing_test(ctx, g)
     sentinel_not_unwrapped(ctx, g)
     # (1) reducedness: T1 over the whole crate
